@@ -25,6 +25,16 @@ theorem C08_stream (ms : List Msg) (h : wfMsgs ms) :
   have := decodeStream_encodeAll_append ms [] h
   simpa [encodeAll, decodeStream_nil] using this
 
+/-- **C08 (framing is unambiguous).** Two sequences of messages `to_io` accepts that put the same bytes on
+the wire are the same sequence: the byte stream determines the number of messages, their boundaries, types,
+channel ids and payloads — no payload content can be mistaken for a frame boundary. -/
+theorem C08_stream_injective (ms ms' : List Msg) (h : wfMsgs ms) (h' : wfMsgs ms')
+    (hw : ms.flatMap encodeMsg = ms'.flatMap encodeMsg) : ms = ms' := by
+  have h1 := C08_stream ms h
+  have h2 := C08_stream ms' h'
+  rw [hw, h2] at h1
+  exact (Prod.mk.inj h1).1.symm
+
 /-- **C08 (re-entrant sends, fix D30).** A send may be re-entered while its frame is being written (a finaliser run by
 the garbage collector sends CLOSE / LAST_MESSAGE from the writing thread itself), to any depth (`SendDefer.SendTree`).
 `_send` defers such messages and writes them behind the frame in progress (`SendDefer.drain` is its loop): the peer
